@@ -55,6 +55,66 @@ def _client(args):
     return problems, ok_shared
 
 
+def _hammer(args):
+    """refused decodes from one identity, back to back: every reply must name THIS client's ids"""
+    sock, idx, n, cred = args
+    uid, gid = 31000 + idx, 32000 + idx
+    want = "UID=%d GID=%d" % (uid, gid)
+    bad = []
+    for _ in range(n):
+        d, st = rig.decode(sock, cred, uid=uid, gid=gid)
+        if d is None or d["error_num"] != 18 or not d["error_str"].endswith(want) or d["data_len"] != 0:
+            bad.append("client uid=%d gid=%d got %r" % (uid, gid, d and (d["error_num"], d["error_str"])))
+            if len(bad) > 3:
+                break
+    return bad
+
+
+def _racer(args):
+    """decode creds[r] at the agreed instant of round r; returns the error numbers"""
+    sock, idx, creds, t_start, dt = args
+    out = []
+    for r, c in enumerate(creds):
+        t = t_start + r * dt
+        while time.time() < t:
+            pass
+        d, st = rig.decode(sock, c, uid=100 + idx, gid=200 + idx)
+        out.append(d["error_num"] if d else -1)
+    return out
+
+
+def run_races(ctx, exe, label, nthreads, nclients, rounds):
+    """many rounds of nclients simultaneous first-attempt decodes of ONE fresh credential: exactly one success each;
+    and concurrent refused decodes from distinct identities (shared static buffers show up here)"""
+    d = rig.Daemon(ctx, exe, tag=label, nthreads=nthreads)
+    if not d.start(wait=20):
+        return ["daemon (%s) does not start" % label], ""
+    problems = []
+    creds = []
+    for r in range(rounds):
+        e, _ = rig.encode(d.sock, uid=1, gid=1, data=b"race %d" % r)
+        creds.append(e["data"])
+    pool = multiprocessing.Pool(nclients)
+    try:
+        t_start = time.time() + 0.5
+        res = pool.map(_racer, [(d.sock, i, creds, t_start, 0.006) for i in range(nclients)])
+        for r in range(rounds):
+            col = [res[i][r] for i in range(nclients)]
+            if col.count(0) != 1 or col.count(0) + col.count(17) != nclients:
+                problems.append("round %d: %d of %d simultaneous first-attempt decoders of one credential succeeded (others: %s)"
+                                % (r, col.count(0), nclients, sorted(set(col) - {0, 17})))
+                if len(problems) > 3:
+                    break
+        restricted, _ = rig.encode(d.sock, uid=1, gid=1, auth_uid=424242, data=b"not for you")
+        for b in pool.map(_hammer, [(d.sock, i, max(rounds, 100), restricted["data"]) for i in range(min(nclients, 8))]):
+            problems += b
+    finally:
+        pool.terminate()
+        pool.join()
+    rc, rep = d.stop(timeout=30)
+    return problems, rep
+
+
 def run_load(ctx, exe, label, nthreads, nclients, rounds, sighup):
     db = {"groups": [(700, ["u%d" % i for i in range(0, 40, 3)]), (701, [])], "users": [("u%d" % i, 1000 + i) for i in range(40)]}
     d = rig.Daemon(ctx, exe, tag=label, nthreads=nthreads, nss_db=db)
@@ -131,6 +191,22 @@ def run(ctx):
                     found.append((label, "%s reported by -fsanitize=%s under concurrent load: %s" % (kind, san, loc),
                                   {"config": label, "report": rep[:4000]}))
             ctx.log("%s: %d problems, sanitizer report %d bytes" % (label, len(problems), len(rep)))
+    # races: simultaneous decoders of one credential, many rounds; concurrent refusals
+    for san, exe in builds:
+        nt, nc, rounds = (8, 16, 1500 if ctx.thorough else 400) if san == "address" else (4, 8, 300 if ctx.thorough else 120)
+        label = "%s-race-t%d-c%d" % (san, nt, nc)
+        problems, rep = run_races(ctx, exe, label, nt, nc, rounds)
+        for i in range(rounds):
+            ctx.count((label, i))
+        dist[label] = rounds
+        if problems:
+            found.append((label, problems[0], {"config": label, "problems": problems[:10]}))
+        if rep.strip() and ("data race" in rep or "ERROR" in rep):
+            import re
+            loc = re.findall(r"#\d+ (\w+) (/[^\s:]+/src/[^\s:]+):(\d+)", rep)[:4]
+            found.append((label, "%s reported by -fsanitize=%s in the race phase: %s" % ("data race" if "data race" in rep else "sanitizer error", san, loc),
+                          {"config": label, "report": rep[:4000]}))
+        ctx.log("%s: %d problems, sanitizer report %d bytes" % (label, len(problems), len(rep)))
     ctx.cov["input_distribution"] = dist
     seen = set()
     for label, why, obj in found:
